@@ -548,4 +548,6 @@ def run(src, out):
     auer.run(src, out, hdr)
     import childgen
     childgen.run(src, out, hdr)
+    import paretogen
+    paretogen.run(src, out, hdr)
     return hdr
